@@ -5,7 +5,7 @@ THEOREMS = ["C13_interrupted_encryption_never_verifies", "C13_complete_and_short
 
 
 def run(ck):
-    ck.prove("Properties_C13", THEOREMS)
+    ck.prove(["Properties_C13", "SrcRun5"], THEOREMS)   # SrcRun5: the translated encryption whose write order is observed
     exe = small_driver(ck)
     env = small_env(ck)
     mdrv = ck.model_driver()
@@ -91,6 +91,40 @@ def run(ck):
             last = replay_of(ck, x, {"state": m["where"]})
         if len(ck.cov["samples"]) < 8 and (m["cls"], len(x["data"]) < 74) not in [(s.get("class"), s.get("short")) for s in ck.cov["samples"]]:
             ck.cov["samples"].append({"class": m["cls"], "short": len(x["data"]) < 74, "state": m["where"], "state_len": len(x["data"]), "verify": x["ver"], "decrypt": x["dec"][:20]})
+    # the ORDER of the writes as the translated source performs them (SrcRun5.src_encrypt_snapshots: the output stream after every
+    # machine step of the translated execute_encrypt that changed it, under a seeded scheduler): every snapshot must be a moment
+    # of the model's family -- a prefix of the file with an all-zero tag field, or the finished file (reached last)
+    sl = ["n%d @S=%d encsnap %s" % (i, r.randrange(1 << 30), c.line()[4:]) for i, c in enumerate(cases)]
+    snaps = wv.run_lines([mdrv, "src"], sl, shards=wv.NCPU, env=env, timeout=1200)
+    snapbad = []
+    for i, c in enumerate(cases):
+        got = snaps.get("n%d" % i)
+        head, _ = split_impl(impl.get("u%d" % i, ""))
+        if got is None or not head.startswith("OK "):
+            continue
+        final = bytes.fromhex(head.split()[1])
+        zt = bytearray(final)
+        zt[10:10 + HL[c.hm]] = bytes(HL[c.hm])
+        why = None
+        if not got.startswith("OK "):
+            why = got[:80]
+        else:
+            ss = [bytes.fromhex(x) if x != "-" else b"" for x in got[3:].split(",")]
+            ck.cov["snapshots_of_translated_encryption"] = ck.cov.get("snapshots_of_translated_encryption", 0) + len(ss)
+            for j, sn in enumerate(ss):
+                if sn != final and sn != bytes(zt[:len(sn)]):
+                    why = "snapshot %d of %d (%d bytes) is neither a prefix of the file with a zero tag field nor the finished file" % (j + 1, len(ss), len(sn))
+                    break
+                if sn == final and j != len(ss) - 1:
+                    why = "the finished file is reached before the last change of the output stream"
+                    break
+            if why is None and (not ss or ss[-1] != final):
+                why = "the last snapshot is not the file the implementation wrote"
+        if why:
+            snapbad.append({"class": None, "case": c.line()[:2000], "difference": why, "broken": "correspondence: order of the writes of the translated encryption vs the model's family"})
+    ck.cov["disagreements_source_vs_impl"] = ck.cov.get("disagreements_source_vs_impl", 0) + len(snapbad)
+    if snapbad and not ck.violations:
+        ck.violation("the output stream of the translated encryption passes through a state outside the family the theorem is about (%s) but no crash state of the implementation verified" % snapbad[0]["difference"][:120], snapbad[0], found_input=False)
     if shape_breaks and not ck.violations:
         rep, wl, hl = shape_breaks[0]
         rep["broken"] = "correspondence: recorded write sequence is not an instance of the model's family (sequential appends, then %d tag bytes at offset 10 as the last write)" % hl
